@@ -226,7 +226,11 @@ class QuantitySerializer(Serializer):
         try:
             return_value = []
             for subvalue in data:
-                return_value.append(f"!units[{str(subvalue)}]")
+                if getattr(subvalue.magnitude, 'ndim', 0) > 0:
+                    # a row of an array with several dimensions
+                    return_value.append(self.serialize(subvalue))
+                else:
+                    return_value.append(f"!units[{str(subvalue)}]")
             return return_value
         except TypeError:
             return f"!units[{str(data)}]"
